@@ -9,10 +9,12 @@ package httpc
 
 import (
 	"context"
+	"errors"
 	"fmt"
 	"math/rand"
 	"net/http"
 	"net/http/httptest"
+	"net/url"
 	"reflect"
 	"runtime/debug"
 	"strings"
@@ -305,6 +307,7 @@ func TestVerifC05RoundTrip(t *testing.T) {
 		var resp *http.Response
 		var err error
 		var cpv any
+		var ue *url.Error
 		func() {
 			defer func() {
 				if p := recover(); p != nil {
@@ -328,6 +331,9 @@ func TestVerifC05RoundTrip(t *testing.T) {
 		switch {
 		case cpv != nil:
 			m.Violate("C05:roundtrip:client-panic", d, "httpc.Do panicked: %v", cpv)
+		case err != nil && errors.As(err, &ue):
+			// the loopback transport failed (not the request builder): nothing to judge
+			m.Inconclusive("case %d: transport error: %v", idx, err)
 		case err != nil:
 			m.Violate("C05:roundtrip:build-error", d, "httpc.Do refused a request inside the domain: %v", err)
 		case hits == 0:
